@@ -217,4 +217,31 @@ def ackedOps (h : String → Nat) : Store → List (Op × CtxEnd) → List Op
     let r := stepCtx h st op c
     if r.2 = .ok then op :: ackedOps h r.1 rest else ackedOps h r.1 rest
 
+/-! ## The write-ahead log a kill leaves behind, and re-opening
+
+SQLite (journal_mode=WAL) logs a transaction as a run of frames, the last of which carries the commit mark;
+a frame is written with two writes (24-byte frame header, then the page).  A kill can therefore leave, behind
+the whole frames, a strict prefix of one more frame.  Recovery replays the whole frames up to the last commit
+mark and ignores everything behind it.  `sqlite3.New` hands the files to SQLite as they are: it does not look
+at, shorten or remove the log. -/
+structure Frame where
+  commit : Bool            -- last frame of a transaction
+deriving DecidableEq, Repr
+
+/-- the log file as found after a kill: whole frames, then `torn` bytes of a partly written one (`0` = none) -/
+structure Log where
+  frames : List Frame
+  torn : Nat
+deriving DecidableEq, Repr
+
+/-- `sqlite3.New` on a directory that holds a log: nothing is done to it before SQLite opens it -/
+def reopenLog (l : Log) : Log := l
+
+/-- SQLite's recovery: the number of transactions it replays = commit marks among the whole frames -/
+def replayed (l : Log) : Nat := (l.frames.filter (·.commit)).length
+
+/-- the store found on re-opening, every API call being one transaction (`withWriteTx`) -/
+def reopened (h : String → Nat) (ops : List Op) (l : Log) : Store :=
+  run h Store.empty (ops.take (replayed (reopenLog l)))
+
 end Specter.C23
